@@ -20,6 +20,10 @@ def main(argv):
         if argv[0] == 'selftest':
             from . import selftest
             return selftest.main()
+        import importlib
+        mod = importlib.import_module('vk.checks.' + argv[0].lower())
+        if hasattr(mod, 'run'):
+            return mod.run(tier, seed)      # checks with their own driver (several interpreter configurations)
         return explore.run_check(argv[0].lower(), tier, seed)
     except HarnessError as e:
         print('HARNESS-ERROR: %s' % e)
